@@ -83,12 +83,49 @@ func (s *singleWidthIndex) Unmarshal(r io.Reader) error {
 		return err
 	}
 
-	buf := make([]byte, dataLen)
-	if _, err := io.ReadFull(r, buf); err != nil {
+	buf, err := readBucket(r, dataLen)
+	if err != nil {
 		return err
 	}
 	s.index = buf
 	return nil
+}
+
+// bucketChunk bounds how much is allocated for a bucket before any of its bytes have been read.
+const bucketChunk = 1 << 20 // 1MiB
+
+// readBucket reads exactly n bytes from r. The length comes straight from the index being decoded,
+// so it is not trusted for an up-front allocation: the buffer starts at no more than bucketChunk
+// bytes and is doubled only once the reader has actually delivered that much.
+// Like io.ReadFull it returns io.EOF if nothing could be read and io.ErrUnexpectedEOF if the
+// reader ran dry part-way.
+func readBucket(r io.Reader, n uint64) ([]byte, error) {
+	c := n
+	if c > bucketChunk {
+		c = bucketChunk
+	}
+	buf := make([]byte, c)
+	var read uint64
+	for {
+		m, err := io.ReadFull(r, buf[read:])
+		read += uint64(m)
+		if err != nil {
+			if err == io.EOF && read > 0 {
+				err = io.ErrUnexpectedEOF
+			}
+			return nil, err
+		}
+		if read == n {
+			return buf, nil
+		}
+		c = 2 * read
+		if c > n {
+			c = n
+		}
+		grown := make([]byte, c)
+		copy(grown, buf)
+		buf = grown
+	}
 }
 
 func (s *singleWidthIndex) checkUnmarshalLengths(width uint32, dataLen, extra uint64) error {
